@@ -16,6 +16,7 @@ type heldLock struct {
 	base  RV
 	field *types.Var
 	mode  byte // 'R' or 'W'
+	ver   int  // iteration in which the locked object was computed (objects of different iterations differ)
 }
 
 type lockReq struct {
@@ -329,7 +330,7 @@ func (la *LockAudit) walk(f *ssa.Function, p *Path, visit func(ev *Ev, held []he
 				base = ev.Args[0] // a mutex reached other than as a struct field
 			}
 			if op[1] == '+' {
-				held = append(held, heldLock{base, field, op[0]})
+				held = append(held, heldLock{base, field, op[0], ev.Ver})
 			} else {
 				for j := len(held) - 1; j >= 0; j-- {
 					if held[j].base == base && held[j].field == field && held[j].mode == op[0] {
@@ -500,7 +501,7 @@ func (la *LockAudit) local() {
 						base = ev.Args[0]
 					}
 					for _, h := range held {
-						if h.base == base && h.field == field {
+						if h.base == base && h.field == field && h.ver == ev.Ver {
 							kind := "reentrant"
 							if h.mode == 'R' && op[0] == 'W' {
 								kind = "upgrade"
